@@ -101,6 +101,17 @@ def Builder.token (cfg : Cfg) (b : Builder) (k : Nat) (text : Text) : Except Pan
       let (g, c) := ({ b.cache with interner := I }).token (k, some key, blen text)
       .ok { b with cache := c, children := b.children ++ [g] }
 
+/-- `token` against an interner that is told to fail its next call (`fail`): the interner is only
+    consulted for kinds without static text, and it is consulted *before* anything is mutated
+    (`let text = self.cache.intern(text)` precedes `cache.token` and `children.push`), so the
+    panic leaves the builder and both caches as they were.  The result pairs the outcome with the
+    fault switch as the call leaves it (consumed iff the interner was called). -/
+def Builder.tokenF (cfg : Cfg) (b : Builder) (k : Nat) (text : Text) (fail : Bool) :
+    Except Panic Builder × Bool :=
+  match cfg.staticText k with
+  | some _ => (b.token cfg k text, fail)
+  | none => if fail then (.error .internFailed, false) else (b.token cfg k text, false)
+
 /-- `GreenNodeBuilder::static_token` -/
 def Builder.staticToken (cfg : Cfg) (b : Builder) (k : Nat) : Except Panic Builder :=
   match cfg.staticText k with
